@@ -72,6 +72,11 @@ def shapes() -> Dict[str, Dict[str, Tables]]:
         ("in", [_in("B1", "2020-12-31 21:30:00-05:00", "2", "100"), _in("B1", "2021-01-01 08:00:00+09:00", "1", "120", "INTEREST", ex="X2")]),
         ("out", [_out("B1", "2021-12-31 23:59:59+00:00", "1", "300"), _out("B1", "2022-01-01 00:00:00+14:00", "1", "310", ex="X1")]),
     ]}
+    out["zones_close_together"] = {"B1": [
+        # instants in time order: buy (Mar 10), sale of all of it (Mar 12), buy at 08:30+09:00 = 23:30 UTC the day before, sale 2.5 hours later in UTC
+        ("in", [_in("B1", "2021-03-10 10:00:00+00:00", "1", "100"), _in("B1", "2021-03-15 08:30:00+09:00", "1", "120", ex="X1", uid="late-lot")]),
+        ("out", [_out("B1", "2021-03-12 10:00:00+00:00", "1", "110"), _out("B1", "2021-03-15 02:00:00+00:00", "1", "130", uid="needs-late-lot")]),
+    ]}
     out["late_starter"] = {"B1": basic("B1"), "B2": [("in", [_in("B2", "2021-02-01 10:00:00+00:00", "3", "50")]), ("out", [_out("B2", "2021-09-01 10:00:00+00:00", "1", "80")])]}
     many = [_in("B1", (date(2020, 1, 1) + timedelta(days=7 * i)).isoformat() + " 10:00:00+00:00", "0.1", str(100 + i), uid=f"B1-lot-{i}") for i in range(30)]
     out["many_lots"] = {"B1": [("in", many + [_in("B1", "2020-12-01 10:00:00+00:00", "0.05", "500", "INTEREST")]), ("out", [_out("B1", "2021-02-01 10:00:00+00:00", "2.95", "600")])]}
@@ -128,6 +133,8 @@ def filter_dates(shape: Dict[str, Tables]) -> List[date]:
         last = [d for d in tx if d.year == y]
         if last:
             out.add(last[-1] + timedelta(days=1))
+            out.add(last[-1])  # a bound falling exactly on the day of a taxable event
+            out.add(last[0])
     first_by_asset = []
     for tables in shape.values():
         ins = [r for t, rows in tables if t == "in" for r in rows]
